@@ -43,6 +43,13 @@ def gen_opts(rng):
         extra.append("-Fmain")
     if rng.chance(1, 6):
         extra.append("-Wcheck")		# the compiler's own assertions and washing: input, same in R0 and Ri
+    if rng.chance(1, 6):
+        extra += ["-Z", "db"]		# debug positions in the saved forms and the generated code
+    if rng.chance(1, 4):		# single optimisations switched off / inliner limits: other paths through the optimiser
+        for o in rng.sample(["inline", "cfold", "hfold", "deadvar", "dassign", "peep", "cprop", "cse", "cast", "env", "emerge", "flow"], rng.range(1, 3)):
+            extra.append("-Qno-" + o)
+    if rng.chance(1, 6):
+        extra.append("-Qinline-limit=%d" % rng.choice([2, 10, 40]))
     return [q] + extra + [worlds.OUT_FLAG[o] for o in sorted(outs)]
 
 
@@ -247,7 +254,10 @@ def main(argv):
             cands.append((nm, main.encode(), "generated"))
         work = []
         for name, text, origin in cands:
-            work.append((name, text, origin, gen_opts(vsim.Rng(seed, "c08-opts", name))))
+            o_ = gen_opts(vsim.Rng(seed, "c08-opts", name))
+            if origin == "generated" and (b"throw" in text or b"try" in text):
+                o_ = [x for x in o_ if x != "-Fjava"]	# the Java back end does not implement exception handling
+            work.append((name, text, origin, o_))
 
         def files_of(name, text):
             d = {name: text}
